@@ -17,6 +17,8 @@ import (
 type c17TC struct {
 	Name string `json:"name"`
 	Args string `json:"args"` // canonical JSON
+	// Index: the position the response states for the call (function.index / index; absent = 0)
+	Index int `json:"index"`
 }
 
 type c17Tuple struct {
@@ -106,6 +108,7 @@ type c17NativeMsg struct {
 		Content   string `json:"content"`
 		ToolCalls []struct {
 			Function struct {
+				Index     int             `json:"index"`
 				Name      string          `json:"name"`
 				Arguments json.RawMessage `json:"arguments"`
 			} `json:"function"`
@@ -172,7 +175,7 @@ func c17DecodeNative(status int, body string, stream bool) c17Outcome {
 		if m.Message != nil {
 			o.T.Text += m.Message.Content
 			for _, tc := range m.Message.ToolCalls {
-				o.T.Tools = append(o.T.Tools, c17TC{tc.Function.Name, c17Canon(tc.Function.Arguments)})
+				o.T.Tools = append(o.T.Tools, c17TC{tc.Function.Name, c17Canon(tc.Function.Arguments), tc.Function.Index})
 			}
 		}
 		if m.DoneReason != "" {
@@ -207,6 +210,7 @@ type c17OAIMsg struct {
 type c17OAIDelta struct {
 	Content   *string `json:"content"`
 	ToolCalls []struct {
+		Index    int `json:"index"`
 		Function struct {
 			Name      string          `json:"name"`
 			Arguments json.RawMessage `json:"arguments"`
@@ -277,7 +281,7 @@ func c17DecodeOpenAI(status int, body string, stream bool) c17Outcome {
 					o.T.Text += *d.Content
 				}
 				for _, tc := range d.ToolCalls {
-					o.T.Tools = append(o.T.Tools, c17TC{tc.Function.Name, c17Canon(tc.Function.Arguments)})
+					o.T.Tools = append(o.T.Tools, c17TC{tc.Function.Name, c17Canon(tc.Function.Arguments), tc.Index})
 				}
 			}
 			if ch.Finish != nil && *ch.Finish != "" {
@@ -316,7 +320,7 @@ func c17ClientTuple(kinds *[]byte, o *c17Outcome, reasons *[]string, done bool, 
 	o.T.Text += text
 	for _, tc := range tcs {
 		b, _ := json.Marshal(tc.Function.Arguments)
-		o.T.Tools = append(o.T.Tools, c17TC{tc.Function.Name, c17Canon(b)})
+		o.T.Tools = append(o.T.Tools, c17TC{tc.Function.Name, c17Canon(b), tc.Function.Index})
 	}
 	if reason != "" {
 		*reasons = append(*reasons, reason)
